@@ -386,6 +386,7 @@ def build_instances(row, rows_by_cls, rng, int_values, depth=0):
     if syn is None or depth > 4:
         return
     fargs = syn.formal_arguments
+    sub_ints = [0, 1, -1, 255, 256, 32767, -32768, 65535]      # int operands of nested constructors
 
     def choices(op):
         c = op._cls
@@ -397,9 +398,9 @@ def build_instances(row, rows_by_cls, rng, int_values, depth=0):
                 r = rows_by_cls.get(o)
                 if r is None:
                     continue
-                for inst in build_instances(r, rows_by_cls, rng, int_values[:3], depth + 1):
+                for k, inst in enumerate(build_instances(r, rows_by_cls, rng, sub_ints, depth + 1)):
                     outs.append(inst)
-                    if len(outs) % 3 == 0:
+                    if k >= 7:
                         break
             return outs
         if isinstance(c, type) and issubclass(c, Register):
@@ -415,7 +416,7 @@ def build_instances(row, rows_by_cls, rng, int_values, depth=0):
         if isinstance(c, type):
             r = rows_by_cls.get(c)
             if r is not None:
-                return list(build_instances(r, rows_by_cls, rng, int_values[:3], depth + 1))[:4]
+                return list(build_instances(r, rows_by_cls, rng, sub_ints, depth + 1))[:8]
         return []
 
     pools = [choices(a) for a in fargs]
